@@ -407,12 +407,57 @@ func c15HelloMachine(r *verdict.Run, walks int) {
 			cns = append(cns, cn)
 		}
 		cns[0].Do("HSET", "ph", "f", "v")
+		cns[0].Do("SADD", "ps", "a", "b")
+		cns[0].Do("MSET", "pa", "ohmytext", "pb", "mynewtext")
 		var log []string
 		variants := [][]string{{"HELLO"}, {"HELLO", "2"}, {"HELLO", "3"}, {"HELLO", "1"}, {"HELLO", "4"}, {"HELLO", "0"}, {"HELLO", "x"}, {"HELLO", "3", "SETNAME", "nm"}, {"HELLO", "2", "SETNAME", "n2"}, {"HELLO", "-1"}, {"HELLO", "33"}}
 		for step := 0; step < 60; step++ {
 			i := rng.Intn(3)
 			rep := func() map[string]any { return map[string]any{"script": log} }
-			if rng.Intn(2) == 0 {
+			if rng.Intn(5) == 0 {
+				// a transaction with protocol switches queued between commands whose replies differ between the protocols:
+				// the EXEC reply is written after the last switch took effect and must be in that protocol throughout
+				rich := [][]string{{"HGETALL", "ph"}, {"SMEMBERS", "ps"}, {"HINCRBYFLOAT", "pn", "n", "1.5"}, {"LCS", "pa", "pb", "IDX"}, {"HRANDFIELD", "ph", "1", "WITHVALUES"}, {"INCRBYFLOAT", "pf", "0.5"}, {"COMMAND", "INFO", "get"}}
+				cmds := [][]string{{"MULTI"}}
+				final := proto[i]
+				for k := 0; k < 2+rng.Intn(4); k++ {
+					if rng.Intn(3) == 0 {
+						to := 2 + rng.Intn(2)
+						cmds = append(cmds, []string{"HELLO", strconv.Itoa(to)})
+						final = to
+					} else {
+						cmds = append(cmds, rich[rng.Intn(len(rich))])
+					}
+				}
+				cmds = append(cmds, []string{"EXEC"})
+				var b []byte
+				for _, cmd := range cmds {
+					b = append(b, resp.Cmd(cmd...)...)
+				}
+				if err := cns[i].Send(b); err != nil {
+					return
+				}
+				var raws [][]byte
+				for range cmds {
+					_, raw, err := cns[i].ReadValue(5 * time.Second)
+					if err != nil {
+						r.Report("c15/hello/no-reply-in-transaction", fmt.Sprintf("conn%d %s: %v", i, quoteCmds(cmds), err), rep())
+						return
+					}
+					raws = append(raws, raw)
+				}
+				log = append(log, fmt.Sprintf("conn%d %s -> EXEC reply %s", i, strings.Join(quoteCmds(cmds), "; "), trunc(string(raws[len(raws)-1]), 160)))
+				r.Eval(1)
+				ex := raws[len(raws)-1]
+				if final == 2 {
+					if _, n, err := resp.Parse(ex, 2); err != nil || n != len(ex) {
+						r.Report("c15/hello/exec-reply-not-resp2-after-queued-hello-2", fmt.Sprintf("conn%d: the connection is RESP2 after this transaction, but its EXEC reply is not a RESP2 value (%v): %q", i, err, truncBytes(ex, 300)), rep())
+						return
+					}
+				}
+				proto[i] = final
+				r.Distinct(fmt.Sprintf("hello-in-multi/final%d", final))
+			} else if rng.Intn(2) == 0 {
 				v := variants[rng.Intn(len(variants))]
 				if err := cns[i].SendCmd(v...); err != nil {
 					return
@@ -475,7 +520,7 @@ func c15HelloMachine(r *verdict.Run, walks int) {
 
 func checkC15(r *verdict.Run) {
 	r.Rule = "(1) the same generated command sequence (all command families + introspection, LCS IDX, LMPOP, SCAN family, HRANDFIELD WITHVALUES, float commands, MULTI/EXEC arrays, errors) is sent to two fresh emulator instances, one over a RESP2 connection parsed strictly as RESP2 and one after HELLO 3: for every step the RESP2 reply must equal the canonical down-conversion of the RESP3 reply " +
-		"(map -> flat pairs, set -> array as multiset, double/big number/verbatim -> string, boolean -> 0/1, null -> nil; order compared where defined; time/identity/random replies by shape); (2) HELLO state machine walks on three connections with protocol probes after every step. distinct = (command+options, RESP2 type, RESP3 type) + HELLO transitions"
+		"(map -> flat pairs, set -> array as multiset, double/big number/verbatim -> string, boolean -> 0/1, null -> nil; order compared where defined; time/identity/random replies by shape); (2) HELLO state machine walks on three connections with protocol probes after every step, incl. transactions with HELLO 2/3 queued between commands whose replies differ between the protocols (the EXEC reply of a connection that ends in RESP2 must be RESP2 throughout). distinct = (command+options, RESP2 type, RESP3 type) + HELLO transitions"
 	c15Sequences(r, tierPick(r, 200, 5000))
 	c15HelloMachine(r, tierPick(r, 8, 100))
 	r.Assume("two emulator instances fed the same commands are in the same state (the commands used are deterministic except where compared by shape)")
